@@ -12,9 +12,9 @@ func Configs(c *common.Ctx) []hist.Config {
 	cfgs := []hist.Config{
 		{PageSize: 512, Regime: 0, AllowWAL: true, AllowDrop: true},
 		{PageSize: 512, Regime: 1, AllowWAL: true, AllowDrop: true},
-		{PageSize: 512, Regime: 1, AllowWAL: false, AllowDrop: false},
+		{PageSize: 512, Regime: 1, AllowWAL: false, AllowDrop: false, CommitFaults: true},
 		{PageSize: 512, Regime: 2, AllowWAL: true, AllowDrop: false, BigEndian: true},
-		{PageSize: 4096, Regime: 0, AllowWAL: true, AllowDrop: true},
+		{PageSize: 4096, Regime: 0, AllowWAL: true, AllowDrop: true, CommitFaults: true},
 		{PageSize: 1024, Regime: 1, AllowWAL: true, AllowDrop: true, BigEndian: true},
 	}
 	if c.Thorough() {
@@ -30,6 +30,42 @@ func Run(c *common.Ctx) error {
 	cfgs := Configs(c)
 	cf := c.Cases("cases_c04", hist.CoqHeader, hist.CoqType, "mismatches")
 	cf.Shard = 3
+	// fixed history first: commits that fail inside LiteFS (the transaction file cannot be published, SQLite rolls
+	// back) while shrinking / growing / in place, each followed by ordinary commits
+	{
+		cfg := hist.Config{PageSize: 512, CommitFaults: true}
+		h, err := hist.New(c, c.Rng.Fork(), cfg)
+		if err != nil {
+			if h != nil {
+				h.Close()
+			}
+			return fmt.Errorf("history setup: %w", err)
+		}
+		for _, st := range []hist.Step{
+			{Op: "rtx", Writes: map[uint32]uint64{1: 1, 2: 2, 3: 3, 4: 4, 5: 5, 6: 6}, NewSize: 6},
+			{Op: "rtx", Writes: map[uint32]uint64{2: 12}, NewSize: 3, FailCommit: true}, // shrink refused
+			{Op: "rtx", Writes: map[uint32]uint64{2: 22}, NewSize: 6},
+			{Op: "rtx", Writes: map[uint32]uint64{3: 33, 7: 37, 8: 38}, NewSize: 8, FailCommit: true, JMode: 1}, // growth refused
+			{Op: "rtx", Writes: map[uint32]uint64{1: 41}, NewSize: 6},
+			{Op: "rtx", Writes: map[uint32]uint64{4: 54}, NewSize: 6, FailCommit: true, JMode: 2}, // in place refused
+			{Op: "rtx", Writes: map[uint32]uint64{5: 65}, NewSize: 4},
+			{Op: "rtx", Writes: map[uint32]uint64{2: 72}, NewSize: 4},
+		} {
+			if ob := h.Exec(st); ob.Panic != "" || len(ob.Exits) > 0 {
+				break
+			}
+		}
+		h.CheckCrash(c, "C04")
+		h.CheckChecksum(c)
+		cf.Add(h.CoqCase(), map[string]any{"kind": "history", "page_size": cfg.PageSize, "scripted": "failed commits", "steps": h.Steps})
+		for _, ob := range h.Obs {
+			if ob.Err != "" {
+				c.Count("scripted_failed_commit_history_errors", 1)
+			}
+		}
+		c.Count("scripted_failed_commit_steps", len(h.Obs))
+		h.Close()
+	}
 	for i := 0; i < nHist; i++ {
 		cfg := cfgs[i%len(cfgs)]
 		h, err := hist.New(c, c.Rng.Fork(), cfg)
